@@ -81,3 +81,15 @@ class OptComp(Component):
     """a component with optional settings (C13: a setting that is explicitly None must survive the configuration document)"""
     config: OptCfg
     def __call__(self, x: int) -> int: return x + (self.config.level or 0)
+
+
+class DerivingComponent(Component):
+    """Derives new lists from the one it is given with the documented ``ItemList(source, ...)`` forms (add, replace, remove a field or the scores,
+    change the ordering flag, subset); the list it was given is the caller's."""
+    config: None
+    def __call__(self, items: ItemList) -> ItemList:
+        import numpy as np
+        n = len(items)
+        outs = [ItemList(items, scores=False), ItemList(items, tagf=False), ItemList(items, extra=np.zeros(n)), ItemList(items, scores=np.ones(n)),
+                ItemList(items, ordered=not items.ordered), items[::-1], items[np.arange(n) % 2 == 0], ItemList(items, tagf=np.zeros(n), scores=False)]
+        return outs[0]
